@@ -55,6 +55,9 @@ def work(args):
                 sends = [o for o in se.ops if o[0] == "send@" + side]
                 if sends and sends[-1][3] not in ("closed",) and se.handler_started:
                     bad.append(("closed-send", "send on the ended connection at %s returned %r instead of raising the closed-connection error" % (side, sends[-1][3])))
+                su = [o for o in se.ops if o[0] == "sendu@" + side]
+                if su and su[-1][3] not in ("closed",) and se.handler_started:
+                    bad.append(("closed-send", "send_unreliable on the ended connection at %s returned %r instead of raising the closed-connection error" % (side, su[-1][3])))
         if getattr(se, "server_table", 0) != 0:
             bad.append(("server-forgets", "the server still holds %d client entries after the connection ended" % se.server_table))
         rec = [o for o in se.ops if o[0] == "reconnect"]
